@@ -17,9 +17,12 @@ def run(bid):
         if r.returncode!=0: return bid,['patch does not apply: '+r.stderr.strip()]
         for p in props:
             raw=f'{tmp}/{p}.json'
-            subprocess.run([f'{ROOT}/bin/omnilint','-prop',p,'-repo',f'{tmp}/repo','-verif',ROOT,'-raw',raw],env=env,capture_output=True)
-            try: o=json.load(open(raw))
-            except Exception as e: out.append(f'{p}: no output'); continue
+            o=None
+            for attempt in range(3):
+                subprocess.run([f'{ROOT}/bin/omnilint','-prop',p,'-repo',f'{tmp}/repo','-verif',ROOT,'-raw',raw],env=env,capture_output=True)
+                try: o=json.load(open(raw)); break
+                except Exception as e: o=None
+            if o is None: out.append(f'{p}: no output (3 attempts)'); continue
             if o.get('fatal'): out.append(f'{p}: FATAL {o["fatal"][:300]}')
             for v in (o.get('violations') or []):
                 out.append(f'{p}/{v["rule"]} {v["pos"].replace(tmp+"/repo/","")} {v["construct"]}: {v["status"]}: {v.get("detail","")[:260]}')
